@@ -139,6 +139,11 @@ func plans(id, tier string) (Plan, bool) {
 			{Pkg: pkgV2, Harness: "c12_trees", Shards: pick(4, 16)},
 			{Pkg: pkgV2, Harness: "c12_assets", Shards: 1},
 		}}, true
+	case "C13":
+		return Plan{Level: "exploration", Jobs: []Job{
+			{Pkg: pkgSC, Harness: "c13_occurrence", Instr: "v1", Shards: 16},
+			{Pkg: pkgSC, Harness: "c13_addvalue", Instr: "v1", Shards: pick(8, 16)},
+		}}, true
 	case "C17":
 		return Plan{Level: "exploration", Jobs: []Job{
 			{Pkg: pkgTok, Harness: "c17_tokens", Shards: pick(4, 16)},
